@@ -272,6 +272,17 @@ func (c *channel) receiveSession(ctx context.Context) (*Session, error) {
 		panic("nil context")
 	}
 
+	// A session envelope that the receiver goroutine has already taken from the transport comes first.
+	// The receiver also updates the channel state, so checking the state before looking here could
+	// miss the envelope that has just finished or failed the session.
+	select {
+	case s, ok := <-c.inSesChan:
+		if ok {
+			return s, nil
+		}
+	default:
+	}
+
 	state := c.State()
 
 	switch state {
